@@ -132,3 +132,7 @@ Definition pairs_exactb (T : its) : bool := forallb (fun c => comp_exactb T (sor
     has a non-hydrogen neighbour in g (what _removable_on asks) *)
 Definition heavy_nbr (g : molg) (h : N) : bool := existsb (fun x => negb (is_H_m g x)) (nbrs g h).
 Definition side0 (sn : inode -> nattr) (se : iedge -> Z) (tpl : its) : molg := init_m (dec_side sn se (standardize_hydrogen tpl)).
+
+(** counting; [bonded se tpl k h] = the template has a bond between k and h on the side selected by [se] *)
+Definition countZ {A} (P : A -> bool) (l : list A) : Z := Z.of_nat (length (filter P l)).
+Definition bonded (se : iedge -> Z) (tpl : its) (k h : N) : bool := match adj tpl k h with Some x => 0 <? se x | None => false end.
